@@ -13,17 +13,21 @@ vars == <<win, root, phase>>
 B(i, p, k, bytes) == [id |-> i, parent |-> p, kind |-> k, name |-> bytes, target |-> -3, tstyle |-> "rel"]
 Wb == [nodes |-> << B(1, 0, "dir", <<97, 255>>), B(2, 0, "dir", <<97, 254>>), B(3, 0, "dir", <<97, 195, 169>>), B(4, 0, "file", <<255, 102>>),
                     B(5, 1, "file", <<102, 49>>), B(6, 2, "file", <<102, 49>>), B(7, 3, "file", <<102, 50>>), B(8, 1, "dir", <<192, 128>>),
-                    B(9, 2, "dir", <<192, 129>>), B(10, 8, "file", <<120>>), B(11, 9, "file", <<120>>) >>]
+                    B(9, 2, "dir", <<192, 129>>), B(10, 8, "file", <<120>>), B(11, 9, "file", <<120>>),
+                    \* names that differ only in the case of a letter
+                    B(12, 0, "dir", <<82, 101, 112>>), B(13, 0, "dir", <<114, 101, 112>>), B(14, 12, "file", <<110>>), B(15, 13, "file", <<110>>),
+                    B(16, 13, "dir", <<81>>), B(17, 16, "file", <<122>>) >>]
 
 Init == win = <<0, 0>> /\ root = "" /\ phase = "start"
-Choose == /\ phase = "start" /\ win' \in {<<0, 0>>, <<1, 2>>, <<2, 3>>, <<0, 1>>} /\ root' \in {"'.'", "'@ROOT@'"} /\ phase' = "done"
+(* `~` is the user's home directory (here: the top of the tree, while the working directory is a sub-directory of it) *)
+Choose == /\ phase = "start" /\ win' \in {<<0, 0>>, <<1, 2>>, <<2, 3>>, <<0, 1>>} /\ root' \in {"'.'", "'@ROOT@'", "~", "'~'", "~/", "~/rep"} /\ phase' = "done"
 Spec == Init /\ [][Choose]_vars
 
 WindowText == (IF win[1] = 0 THEN "" ELSE " mindepth " \o ToString(win[1])) \o (IF win[2] = 0 THEN "" ELSE " maxdepth " \o ToString(win[2]))
 Query(m) == "select inode, path from " \o root \o WindowText \o (IF m = "dfs" THEN " dfs" ELSE "") \o " into list"
-Scenario == [prop |-> "C01", class |-> "names-as-bytes" \o (IF win[1] = 0 THEN "/min0" ELSE "/minN") \o (IF win[2] = 0 THEN "/max0" ELSE "/maxN"),
-             world |-> Wb, roots |-> <<0>>, min |-> win[1], max |-> win[2],
-             env |-> [tz |-> "UTC", cwd |-> 0],
+Scenario == [prop |-> "C01", class |-> (IF root \in {"'.'", "'@ROOT@'"} THEN "names-as-bytes" ELSE "home-root") \o (IF win[1] = 0 THEN "/min0" ELSE "/minN") \o (IF win[2] = 0 THEN "/max0" ELSE "/maxN"),
+             world |-> Wb, roots |-> IF root = "~/rep" THEN <<13>> ELSE <<0>>, min |-> win[1], max |-> win[2],
+             env |-> IF root \in {"~", "'~'", "~/", "~/rep"} THEN [tz |-> "UTC", cwd |-> 12, home |-> 0] ELSE [tz |-> "UTC", cwd |-> 0],
              runs |-> << [tag |-> "bfs", ncols |-> 2, argv |-> <<Query("bfs")>>], [tag |-> "dfs", ncols |-> 2, argv |-> <<Query("dfs")>>] >>]
 Emit == phase = "done" => PrintT(<<"REPLAY", ToJson(Scenario)>>)
 =============================================================================
